@@ -384,6 +384,16 @@ pub fn subst_pattern(pf: &PatForm, root_text: &str) -> PatForm {
     })
 }
 
+/// 0: borrowed, 1: `into_owned`, 2: parsed — a function of the expression text alone.
+pub fn ownership(text: &str) -> u64 {
+    // (the absolute path of the world differs from process to process: only what follows it counts)
+    let tail = match text.find("/r") {
+        Some(_) if text.starts_with('/') => text.rsplit('/').next().unwrap_or(text),
+        _ => text,
+    };
+    hash_bytes(7, tail.as_bytes()) % 3
+}
+
 /// Builds the negation exactly in the form the scenario says.
 fn apply_not<I>(it: I, form: &PatForm, root_text: &str) -> Result<wax::walk::Not<I>, String>
 where
@@ -394,8 +404,22 @@ where
     match form {
         PatForm::Text(t) => it.not(t.as_str()).map_err(e),
         PatForm::Glob(t) => {
-            let g = Glob::new(t).map_err(|e| format!("not glob: {}", e))?;
-            it.not(g).map_err(e)
+            // a compiled glob is handed over borrowed, owned, or parsed (`FromStr`): three ways to
+            // the same pattern, chosen by the text so that a scenario always takes the same one
+            match ownership(t) {
+                0 => {
+                    let g = Glob::new(t).map_err(|e| format!("not glob: {}", e))?;
+                    it.not(g).map_err(e)
+                },
+                1 => {
+                    let g = Glob::new(t).map_err(|e| format!("not glob: {}", e))?.into_owned();
+                    it.not(g).map_err(e)
+                },
+                _ => {
+                    let g: Glob<'static> = t.parse().map_err(|e| format!("not glob: {}", e))?;
+                    it.not(g).map_err(e)
+                },
+            }
         },
         PatForm::ResultGlob(t) => it.not(Glob::new(t)).map_err(e),
         PatForm::AnyText(ts) => {
@@ -403,7 +427,10 @@ where
             it.not(any).map_err(e)
         },
         PatForm::AnyGlob(ts) => {
-            let globs: Result<Vec<Glob>, _> = ts.iter().map(|t| Glob::new(t)).collect();
+            let globs: Result<Vec<Glob>, _> = ts
+                .iter()
+                .map(|t| if ownership(t) == 0 { Glob::new(t) } else { Glob::new(t).map(Glob::into_owned) })
+                .collect();
             let globs = globs.map_err(|e| format!("any glob: {}", e))?;
             let any = wax::any(globs).map_err(|e| format!("any: {}", e))?;
             it.not(any).map_err(e)
@@ -724,14 +751,24 @@ pub fn build_walker(
                 k != wi
                     && matches!(&o.source, Source::Glob { expr: e, rooted: r } if glob_text(e, *r, &world.root_text) == text)
             });
-            let glob = match globs.borrow().get(&text) {
-                Some(g) => g.clone(),
-                None => Rc::new(Glob::new(&text).map_err(|e| format!("glob {:?}: {}", text, e))?.into_owned()),
-            };
-            if shared {
-                globs.borrow_mut().insert(text.clone(), glob.clone());
+            // (a glob that is not shared is walked borrowed, owned or parsed, see `ownership`)
+            if !shared && ownership(&text) == 0 {
+                let glob = Glob::new(&text).map_err(|e| format!("glob {:?}: {}", text, e))?;
+                start!(arg, glob.walk(base.clone()), |b| glob.walk_with_behavior(base.clone(), b))
             }
-            start!(arg, glob.walk(base.clone()), |b| glob.walk_with_behavior(base.clone(), b))
+            else {
+                let glob = match globs.borrow().get(&text) {
+                    Some(g) => g.clone(),
+                    None if ownership(&text) == 2 => {
+                        Rc::new(text.parse::<Glob<'static>>().map_err(|e| format!("glob {:?}: {}", text, e))?)
+                    },
+                    None => Rc::new(Glob::new(&text).map_err(|e| format!("glob {:?}: {}", text, e))?.into_owned()),
+                };
+                if shared {
+                    globs.borrow_mut().insert(text.clone(), glob.clone());
+                }
+                start!(arg, glob.walk(base.clone()), |b| glob.walk_with_behavior(base.clone(), b))
+            }
         },
     };
     verif::set_entry_order(None);
